@@ -138,12 +138,12 @@ theorem doTail_dying {P : St → Prop} (c : Cfg) (s : St) (m : Meth) (tp : Nat) 
     · exact hR _ _ hd1
 
 theorem frameRet_dying {P : St → Prop} (c : Cfg) (f : Fr) (k : List Fr) (retK : St → Val → St)
-    (s : St) (v : Val) (hf : ∀ m n tp, f ≠ .wait m n tp) (hd : Dying s)
+    (s : St) (v : Val) (hd : Dying s)
     (hR : ∀ s' v, Dying s' → P (retK s' v)) : P (frameRet c f k retK s v) := by
   have hp : ∀ b, Dying (playUndo s b) := fun b => by simpa [Dying, playUndo] using hd
   unfold frameRet
   cases f with
-  | wait m n tp => exact absurd rfl (hf m n tp)
+  | wait m n tp => exact hR _ _ hd
   | doOpt m skip tp =>
     cases v <;> simp only []
     all_goals first
@@ -207,5 +207,44 @@ theorem frameRet_dying {P : St → Prop} (c : Cfg) (f : Fr) (k : List Fr) (retK 
       | exact hR _ _ hd
       | exact setupStart_dying _ _ _ _ _ hd hR
   | resetK n => exact afterReset_dying _ _ _ _ hd hR
+
+
+/-! ### the same for error values only: under `Dying` every helper hands an ERROR to its continuation -/
+
+theorem describeStart_dyingE {P : St → Prop} (s : St) (fs k : List Fr) (retK : St → Val → St)
+    (hd : Dying s) (hR : ∀ s' e, Dying s' → P (retK s' (.err e))) : P (describeStart s fs k retK) := by
+  unfold describeStart
+  split
+  · split
+    · exact hR _ _ hd
+    · rename_i s1 h1
+      exact startDo_dying _ _ _ _ _ _ _ _ (connOpen_dying h1 hd) (fun s' e h => hR _ _ h) (fun hf => by cases hf)
+  · exact hR _ _ hd
+
+theorem afterReset_dyingE {P : St → Prop} (s : St) (n : AfterReset) (k : List Fr)
+    (retK : St → Val → St) (hd : Dying s) (hR : ∀ s' e, Dying s' → P (retK s' (.err e))) :
+    P (afterReset s n k retK) := by
+  have hc := clearSession_dying s hd
+  unfold afterReset
+  cases n with
+  | redirect loc =>
+    cases loc <;> simp only []
+    all_goals first
+      | exact hR _ _ hc
+      | exact describeStart_dyingE _ _ _ _ (by simpa [Dying] using hc) hR
+  | switchTcp a =>
+    exact describeStart_dyingE _ _ _ _ (by simpa [Dying] using hc) hR
+
+theorem frameRet_dyingE {P : St → Prop} (c : Cfg) (f : Fr) (k : List Fr) (retK : St → Val → St)
+    (s : St) (e : Err) (hd : Dying s)
+    (hR : ∀ s' e, Dying s' → P (retK s' (.err e))) : P (frameRet c f k retK s (.err e)) := by
+  have hp : ∀ b, Dying (playUndo s b) := fun b => by simpa [Dying, playUndo] using hd
+  unfold frameRet
+  cases f <;> simp only []
+  all_goals first
+    | exact hR _ _ hd
+    | exact hR _ _ (hp _)
+    | exact hR _ _ (by simpa [Dying] using hd)
+    | exact afterReset_dyingE _ _ _ _ hd hR
 
 end Rtsp.ClientSm
